@@ -415,14 +415,6 @@ theorem min_max_select (a b : Val) (h : (ltOp a b).2 = .ok true) :
 example : (pickMin (Val.str [97]) (Val.str [98])).2 = .ok (Val.str [97]) :=
   (min_max_select _ _ (by simp [ltOp, ltVal, bytesLt])).1
 
-/-- the left fold of `+` from an initial value, stopping at the first error -/
-def sumFrom : Val → List Val → Ans
-  | acc, [] => .ok acc
-  | acc, x :: xs =>
-    match (addOp acc x).2 with
-    | .ok a => sumFrom a xs
-    | .error e => .error e
-
 /-- **sum_is_left_fold.** `sum` with any initial value is the left fold
 `((init + x₀) + x₁) + …` — the accumulator is always the *left* operand, which is what makes the
 result of non-commutative `+` (string / list / tuple concatenation, objects with `@+`) well defined;
